@@ -33,6 +33,7 @@ EXPLANATION = (
     "parameters."
 )
 NOT_DECIDED = (
+    "(R-20.4 decides one structural necessary condition of image-shift invariance: the wrap is applied to raw differences) "
     "invariance under translation / rotation / periodic image shifts and the "
     "half-box bound of the minimum-image distance (identities of real functions)"
 )
@@ -266,6 +267,48 @@ def r202(ctx, classes):
         raise AnalysisError(f"R-20.2: only {n} pbc_dist_coordinate call sites found")
 
 
+def r204(ctx, classes):
+    """The minimum-image wrap is applied to the raw difference of two positions."""
+    rid = "R-20.4"
+    n = 0
+    for m, name, c, calc in classes:
+        fl = flow_of(calc)
+        cfg = fl.cfg
+        for call in [x for x in walk_local(calc) if isinstance(x, ast.Call) and last_name(x) == "pbc_dist_coordinate"]:
+            n += 1
+            d = kwarg(call, "distance", 0)
+            at = cfg.node_of(call)
+            bad = None
+
+            def raw_difference(e):
+                return isinstance(e, ast.BinOp) and isinstance(e.op, ast.Sub) and all(
+                    isinstance(x, ast.Subscript) and ("pos" in ast.unparse(x.value)) for x in (e.left, e.right))
+
+            if raw_difference(d):
+                pass
+            elif path_of(d):
+                def pos_read(x):
+                    return isinstance(x, ast.Subscript) and "pos" in ast.unparse(x.value)
+                for df, sfx in fl.rd(path_of(d), at):
+                    if df.kind == "assign" and raw_difference(df.value):
+                        continue
+                    # copy of one position, then `-=` the other: the same raw difference
+                    if df.kind == "aug" and isinstance(df.value.op, ast.Sub) and pos_read(df.value.value):
+                        prev = fl.rd(df.path, df.at)
+                        if prev and all(p.kind == "assign" and isinstance(p.value, ast.Call) and last_name(p.value) in ("array", "copy") and p.value.args and pos_read(p.value.args[0]) for p, _ in prev):
+                            continue
+                    bad = f"{short(df.stmt, 60) if df.stmt is not None else df.kind} reaches the wrap"
+            else:
+                bad = f"the wrapped expression is {short(d, 50)}"
+            if bad:
+                ctx.bad(rid, call, f"{name}.calculate applies the periodic minimum-image wrap to a vector that is no longer the raw difference of two positions ({bad}): "
+                        "a rescaled/normalised vector is never wrapped, so the value depends on which periodic image an atom is stored in", construct=short(call, 70))
+            else:
+                ctx.ok(rid, call, f"{name}: pbc_dist_coordinate is applied to the raw difference of two positions")
+    if n < 4:
+        raise AnalysisError(f"R-20.4: only {n} pbc_dist_coordinate call sites found")
+
+
 def r203(ctx, classes):
     rid = "R-20.3"
     tree = ctx.tree
@@ -302,12 +345,14 @@ def run(ctx):
     ctx.rule("R-20.1", "calculate() / calculate_order() / pbc helper never modify the system or arrays aliasing it (NumPy view/copy table)", floor=8)
     ctx.rule("R-20.2", "every box handed to pbc_dist_coordinate is system.box[:3]", floor=4)
     ctx.rule("R-20.3", "velocity dependence declared iff calculate reads system.vel; Path.reverse recomputes for velocity-dependent parameters", floor=6)
+    ctx.rule("R-20.4", "the minimum-image wrap is applied to the raw difference of two positions, before any rescaling (necessary for invariance under periodic image shifts)", floor=4)
     classes = op_classes(ctx.tree)
     if len(classes) < 6:
         raise AnalysisError(f"C20: only {len(classes)} order-parameter classes with calculate() found (expected >= 6)")
     ctx.attempt(r201, ctx, classes)
     ctx.attempt(r202, ctx, classes)
     ctx.attempt(r203, ctx, classes)
+    ctx.attempt(r204, ctx, classes)
 
 
 VARIANTS = [
@@ -321,6 +366,8 @@ VARIANTS = [
     B("c20-dihedral-raw-box", ORDERP, "            box = np.array(system.box[:3])\n            vector1 = pbc_dist_coordinate(vector1, box)", "            box = np.array(system.box)\n            vector1 = pbc_dist_coordinate(vector1, box)", "R-20.2"),
     B("c20-distancevel-not-declared", ORDERP, "        super().__init__(description=txt, velocity=True)\n        self.periodic = periodic\n        self.index = index", "        super().__init__(description=txt, velocity=False)\n        self.periodic = periodic\n        self.index = index", "R-20.3", control=True),
     B("c20-reverse-never-recomputes", PATH, "        if order_function.velocity_dependent and rev_v:\n            for phasepoint in new_path.phasepoints:\n                phasepoint.order = order_function.calculate(phasepoint)", "        if False:\n            for phasepoint in new_path.phasepoints:\n                phasepoint.order = order_function.calculate(phasepoint)", "R-20.3"),
+    B("c20-dihedral-normalise-before-wrap", ORDERP, "        vector3 = pos[self.index[3]] - pos[self.index[2]]\n        if self.periodic", "        vector3 = pos[self.index[3]] - pos[self.index[2]]\n        vector2 /= np.linalg.norm(vector2)\n        if self.periodic", "R-20.4", control=True, why="seeded C20_a"),
+    B("c20-distance-wrap-of-scaled", ORDERP, "            box = np.array(system.box[:3])\n            delta = pbc_dist_coordinate(delta, box)\n        lamb = np.sqrt(np.dot(delta, delta))\n        return [lamb]", "            box = np.array(system.box[:3])\n            delta = pbc_dist_coordinate(0.5 * delta, box) * 2\n        lamb = np.sqrt(np.dot(delta, delta))\n        return [lamb]", "R-20.4"),
     K("c20-keep-puckering-array-index", ORDERP, "        pos = system.pos[list(self.index)]", "        pos = np.array(system.pos[list(self.index)])"),
     K("c20-keep-distance-copy-then-inplace", ORDERP, "        delta = system.pos[self.index[1]] - system.pos[self.index[0]]\n        if self.periodic and system.box is not None:\n            box = np.array(system.box[:3])\n            delta = pbc_dist_coordinate(delta, box)\n        lamb = np.sqrt(np.dot(delta, delta))\n        return [lamb]", "        delta = np.array(system.pos[self.index[1]])\n        delta -= system.pos[self.index[0]]\n        if self.periodic and system.box is not None:\n            box = np.array(system.box[:3])\n            delta = pbc_dist_coordinate(delta, box)\n        lamb = np.sqrt(np.dot(delta, delta))\n        return [lamb]"),
     K("c20-keep-box-local", ORDERP, "            box = np.array(system.box[:3])\n            vector1 = pbc_dist_coordinate(vector1, box)", "            lengths = system.box[:3]\n            box = np.array(lengths)\n            vector1 = pbc_dist_coordinate(vector1, box)"),
